@@ -539,3 +539,247 @@ Proof.
   apply (scan_sound dq_step dq_R dq_step_ok).
   unfold dq_R, dq_v, bc_init. sf. split; [intros g v E; discriminate E|split; reflexivity].
 Qed.
+
+(* ========================================================== c15_in_order == *)
+
+Definition io_ok (x : ppc) (v : option (packet * bool)) : Prop :=
+  match x with
+  | PPub0 m => exists d id, v = Some (Publish d m id, false) /\ m_qos m = 0
+  | PPub1W _ m => exists d id, v = Some (Publish d m id, false) /\ m_qos m = 1
+  | PRelLookup id | PRelPub id _ => v = Some (Pubrel id, false)
+  | _ => True
+  end.
+
+Definition io_v (s : bc) (t : list (N * (packet * bool))) : option (packet * bool) :=
+  match gproc s with Some g => aget t g | None => None end.
+
+Definition io_R (s : bc) (t : list (N * (packet * bool))) : Prop :=
+  (forall g v, aget t g = Some v -> gproc s = Some g) /\ io_ok (pp s) (io_v s t).
+
+Definition io_neutral (e : event) : bool :=
+  match e with ENewConn | ERx _ _ | EPub _ _ _ => false | _ => true end.
+
+Lemma io_neutral_step t e : io_neutral e = true -> io_step t e = Some t.
+Proof. intros Hn. destruct e; cbn [io_neutral] in Hn; try discriminate Hn; reflexivity. Qed.
+
+Lemma clo_event_io e : clo_event e = true -> io_neutral e = true.
+Proof. destruct e; cbn [clo_event io_neutral]; intros H; try discriminate H; reflexivity. Qed.
+Lemma deq_event_io e : deq_event e = true -> io_neutral e = true.
+Proof. destruct e; cbn [deq_event io_neutral]; intros H; try discriminate H; reflexivity. Qed.
+Lemma ack_event_io e : ack_event e = true -> io_neutral e = true.
+Proof. destruct e; cbn [ack_event io_neutral]; intros H; try discriminate H; reflexivity. Qed.
+
+Lemma io_R_roles s t p d a c :
+  gproc s = None \/ p = gproc s -> io_R s t -> io_R (set_roles s p d a c) t.
+Proof.
+  intros Hd (R1 & R2). unfold io_R, io_v in *. sf. destruct Hd as [Hd| ->]; [|split; assumption].
+  assert (Hn : forall g, aget t g = None).
+  { intros g. destruct (aget t g) eqn:E; [|reflexivity]. specialize (R1 _ _ E). congruence. }
+  rewrite Hd in R2. split; [intros g v E; rewrite Hn in E; discriminate E|].
+  destruct p as [g|]; [rewrite Hn|]; exact R2.
+Qed.
+
+Lemma io_ok_done v : io_ok PDone v.
+Proof. exact I. Qed.
+
+Lemma io_step_ok s t e s' : io_R s t -> step s e = Some s' -> exists t', io_step t e = Some t' /\ io_R s' t'.
+Proof.
+  intros HR H. destruct (step_cases _ _ _ H) as
+    [He Hlp Hs|He Ho Hs|He Hq Hs|Hc|He Hc|g s1 Ho Hg Hc Hi Hv Hp|g s1 Ho Hg Hc Hi Hr1 Hv Hp
+    |g s1 Ho Hg Hc Hi Hr1 Hr2 Hv Hp|g s1 Ho Hg Hc Hi Hr1 Hr2 Hr3 Hv Hp|g He Ho Hc Hi Hf Hs].
+  - subst e s'. exists []. split; [reflexivity|]. unfold io_R, io_v, new_conn; sf.
+    split; [intros g v E; discriminate E|exact I].
+  - subst e s'. exists t. split; [reflexivity|exact HR].
+  - subst e s'. exists t. split; [reflexivity|exact HR].
+  - exists t. split; [apply io_neutral_step, clo_event_io; eapply step_clo_event; exact Hc|].
+    destruct (step_clo_shape _ _ _ Hc) as (si & cl & dy & q & ->).
+    unfold io_R, io_v in *; sf; exact HR.
+  - subst e. exists t. split; [reflexivity|].
+    destruct (step_cleanup_shape _ _ _ Hc) as (p & d & a & l & -> & _ & Hx). destruct HR as (R1 & R2).
+    unfold io_R, io_v in *; sf.
+    destruct Hx as [(-> & _)|(_ & _ & -> & _)]; [split; assumption|split; [exact R1|exact I]].
+  - (* processor *)
+    assert (HR1 : io_R s1 t /\ gproc s1 = Some g).
+    { destruct Hv as [[-> Hgd]|(Hgd & _ & -> & _)]; [split; [exact HR|exact Hgd]|].
+      split; [apply io_R_roles; [left; exact Hgd|exact HR]|reflexivity]. }
+    clear HR H Hv Hc Hi. destruct HR1 as ((R1 & R2) & Hgp). unfold io_v in R2. rewrite Hgp in R2.
+    unfold step_proc, proc_dispatch, die_p, guard in Hp.
+    destruct (pp s1) eqn:Epp; destruct e; try discriminate Hp; bm Hp; inv_some Hp; inv_helpers; inv_tdia;
+      cbn [ev_g] in Hg; injection Hg as ->; cbn [io_ok] in R2.
+    all: try (exists t; split; [reflexivity|]; unfold io_R, io_v; sf;
+              split; [exact R1|]; rewrite ?Hgp; cbn [io_ok]; auto; fail).
+    (* a packet is received *)
+    all: try (eexists; split; [reflexivity|]; unfold io_R, io_v; sf;
+              split; [apply entries_aput; assumption|]; rewrite ?Hgp, ?aget_aput, ?N.eqb_refl; cbn [io_ok]; auto;
+              repeat match goal with Hx : (_ =? _) = true |- _ => apply N.eqb_eq in Hx end; eauto; fail).
+    (* the backend Publish is issued *)
+    all: apply message_eqb_eq in Heqb; rewrite <- Heqb.
+    all: try destruct R2 as (xd & xid & R2 & Rq).
+    all: (eexists; split; [cbn [io_step]; rewrite R2; cbn beta iota; rewrite ?Rq, ?message_eqb_refl; reflexivity|]).
+    all: unfold io_R, io_v; sf; (split; [apply entries_aput; assumption|exact I]).
+  - (* dequeuer *)
+    assert (HR1 : io_R s1 t).
+    { destruct Hv as [[-> _]|(_ & _ & ->)]; [exact HR|]. apply io_R_roles; [right; reflexivity|exact HR]. }
+    exists t. split; [apply io_neutral_step, deq_event_io; eapply step_deq_event; exact Hp|].
+    destruct (step_deq_shape _ _ _ Hp) as (se & d & dy & t1 & t2 & t3 & ->).
+    unfold io_R, io_v in *; sf; exact HR1.
+  - (* acker *)
+    assert (HR1 : io_R s1 t).
+    { destruct Hv as [[-> _]|(_ & _ & ->)]; [exact HR|]. apply io_R_roles; [right; reflexivity|exact HR]. }
+    exists t. split; [apply io_neutral_step, ack_event_io; eapply step_ack_event; exact Hp|].
+    destruct (step_ack_shape _ _ _ Hp) as (a & dy & t1 & t2 & t3 & q & ->).
+    unfold io_R, io_v in *; sf; exact HR1.
+  - (* cleanup: it never received anything, so it has no entry *)
+    assert (HR1 : io_R s1 t).
+    { destruct Hv as [[-> _]|(_ & _ & ->)]; [exact HR|]. apply io_R_roles; [right; reflexivity|exact HR]. }
+    assert (Hn : aget t g = None).
+    { destruct (aget t g) eqn:E; [|reflexivity]. destruct HR as (R1 & _). specialize (R1 _ _ E).
+      rewrite R1, is_role_some in Hr1. discriminate Hr1. }
+    exists t. split.
+    + pose proof (step_cleanup_event _ _ _ Hp) as He. destruct e; cbn [cleanup_event] in He; try discriminate He;
+        try reflexivity. cbn [ev_g] in Hg. injection Hg as ->. cbn [io_step]. rewrite Hn. reflexivity.
+    + destruct (step_cleanup_shape _ _ _ Hp) as (p & d & a & l & -> & _ & Hx). destruct HR1 as (R1 & R2).
+      unfold io_R, io_v in *; sf.
+      destruct Hx as [(-> & _)|(_ & _ & -> & _)]; [split; assumption|split; [exact R1|exact I]].
+  - subst e s'. exists t. split; [reflexivity|]. unfold io_R, io_v in *; sf; exact HR.
+Qed.
+
+Theorem c15_in_order_holds : forall es s, bc_run es = Some s -> c15_in_order es = true.
+Proof.
+  apply (scan_sound io_step io_R io_step_ok).
+  unfold io_R, io_v, bc_init. sf. split; [intros g v E; discriminate E|exact I].
+Qed.
+
+(* ==================================================== c15_release_intact == *)
+
+Definition ri_exp (s : bc) (g : N) : option message :=
+  match pp s with
+  | PRelPub _ m => if is_role (gproc s) g then Some m else None
+  | _ => None
+  end.
+
+Definition ri_R (s : bc) (t : list (N * message)) : Prop :=
+  (lp s <> LNone -> pp s = PDone) /\
+  (gproc s = None -> pp s = PFirst \/ pp s = PDone) /\
+  forall g, aget t g = ri_exp s g.
+
+Definition ri_neutral (e : event) : bool :=
+  match e with ELookup _ Incoming _ _ | ERx _ _ | EPub _ _ (Some _) => false | _ => true end.
+
+Lemma ri_neutral_step t e : ri_neutral e = true -> ri_step t e = Some t.
+Proof.
+  intros Hn. destruct e; cbn [ri_neutral] in Hn; try discriminate Hn; try reflexivity.
+  - destruct k; [discriminate Hn|reflexivity].
+  - destruct d; [discriminate Hn|reflexivity].
+Qed.
+
+Lemma clo_event_ri e : clo_event e = true -> ri_neutral e = true.
+Proof. destruct e; cbn [clo_event ri_neutral]; intros H; try discriminate H; reflexivity. Qed.
+Lemma deq_event_ri e : deq_event e = true -> ri_neutral e = true.
+Proof. destruct e; cbn [deq_event ri_neutral]; intros H; try discriminate H; reflexivity. Qed.
+Lemma ack_event_ri e : ack_event e = true -> ri_neutral e = true.
+Proof. destruct e; cbn [ack_event ri_neutral]; intros H; try discriminate H; reflexivity. Qed.
+Lemma cleanup_event_ri e : cleanup_event e = true -> ri_neutral e = true.
+Proof.
+  destruct e; cbn [cleanup_event ri_neutral]; intros H; try discriminate H; try reflexivity.
+  destruct k; [discriminate H|reflexivity].
+Qed.
+
+(* learning a role other than the processor's *)
+Lemma ri_R_roles s t d a c : ri_R s t -> ri_R (set_roles s (gproc s) d a c) t.
+Proof. intros HR. unfold ri_R, ri_exp in *; sf; exact HR. Qed.
+
+Lemma ri_R_learn_proc s t g : gproc s = None -> ri_R s t -> ri_R (set_roles s (Some g) (gdeq s) (gack s) (gcl s)) t.
+Proof.
+  intros Hn (R1 & R2 & R3). unfold ri_R, ri_exp in *; sf. split; [exact R1|split; [discriminate|]].
+  intros g'. rewrite R3. destruct (R2 Hn) as [E|E]; rewrite E; reflexivity.
+Qed.
+
+(* the cleanup cannot begin while a release is pending *)
+Lemma ri_R_cleanup s t s' e : ri_R s t -> step_cleanup s e = Some s' -> ri_R s' t.
+Proof.
+  intros (R1 & R2 & R3) Hp.
+  destruct (step_cleanup_shape _ _ _ Hp) as (p & d & a & l & -> & Hl & Hx).
+  unfold ri_R, ri_exp in *; sf.
+  destruct Hx as [(-> & _ & _ & Hlp)|(Hlp & Hst & -> & _)].
+  - split; [intros _; apply R1, Hlp|split; [exact R2|exact R3]].
+  - split; [reflexivity|split; [right; reflexivity|]]. intros g. rewrite R3.
+    unfold all_stopped, proc_can_stop in Hst. destruct (pp s); try reflexivity. discriminate Hst.
+Qed.
+
+Lemma ri_step_ok s t e s' : ri_R s t -> step s e = Some s' -> exists t', ri_step t e = Some t' /\ ri_R s' t'.
+Proof.
+  intros HR H. destruct (step_cases _ _ _ H) as
+    [He Hlp Hs|He Ho Hs|He Hq Hs|Hc|He Hc|g s1 Ho Hg Hc Hi Hv Hp|g s1 Ho Hg Hc Hi Hr1 Hv Hp
+    |g s1 Ho Hg Hc Hi Hr1 Hr2 Hv Hp|g s1 Ho Hg Hc Hi Hr1 Hr2 Hr3 Hv Hp|g He Ho Hc Hi Hf Hs].
+  - subst e s'. exists t. split; [reflexivity|]. destruct HR as (R1 & R2 & R3).
+    assert (Hd : pp s = PDone) by (apply R1; rewrite Hlp; discriminate).
+    unfold ri_R, ri_exp, new_conn in *; sf.
+    split; [intros Hx; exfalso; apply Hx; reflexivity|split; [left; reflexivity|]].
+    intros g. rewrite R3, Hd. reflexivity.
+  - subst e s'. exists t. split; [reflexivity|exact HR].
+  - subst e s'. exists t. split; [reflexivity|exact HR].
+  - exists t. split; [apply ri_neutral_step, clo_event_ri; eapply step_clo_event; exact Hc|].
+    destruct (step_clo_shape _ _ _ Hc) as (si & cl & dy & q & ->).
+    unfold ri_R, ri_exp in *; sf; exact HR.
+  - subst e. exists t. split; [reflexivity|]. eapply ri_R_cleanup; eassumption.
+  - (* processor *)
+    assert (HR1 : ri_R s1 t /\ gproc s1 = Some g).
+    { destruct Hv as [[-> Hgd]|(Hgd & _ & -> & _)]; [split; [exact HR|exact Hgd]|].
+      split; [apply ri_R_learn_proc; assumption|reflexivity]. }
+    clear HR H Hv Hc Hi. destruct HR1 as ((R1 & R2 & R3) & Hgp). unfold ri_exp in R3. rewrite Hgp in R3.
+    assert (Hl : lp s1 = LNone).
+    { destruct (lp s1) eqn:El; try reflexivity; exfalso;
+      (assert (Hd : pp s1 = PDone) by (apply R1; discriminate));
+      unfold step_proc in Hp; rewrite Hd in Hp; destruct e; discriminate Hp. }
+    clear R1 R2.
+    unfold step_proc, proc_dispatch, die_p, guard in Hp.
+    destruct (pp s1) eqn:Epp; destruct e; try discriminate Hp; bm Hp; inv_some Hp; inv_helpers; inv_tdia;
+      cbn [ev_g] in Hg; injection Hg as ->.
+    all: try (exists t; split; [reflexivity|]; unfold ri_R, ri_exp; sf;
+              split; [intros Hx; exfalso; apply Hx; exact Hl
+                     |split; [intros Hx; rewrite Hx in Hgp; discriminate Hgp|exact R3]]; fail).
+    (* receive, or a lookup that finds no PUBLISH: the entry is dropped *)
+    all: try (exists (adel t g); split; [reflexivity|]; unfold ri_R, ri_exp; sf;
+              split; [intros Hx; exfalso; apply Hx; exact Hl
+                     |split; [intros Hx; rewrite Hx in Hgp; discriminate Hgp|]];
+              intros g'; rewrite aget_adel; destruct (g' =? g); [reflexivity|apply R3]; fail).
+    + (* QoS 1 publish: no release pending *)
+      exists t. split; [cbn [ri_step]; rewrite R3; reflexivity|]. unfold ri_R, ri_exp; sf.
+      split; [intros Hx; exfalso; apply Hx; exact Hl|split; [intros Hx; rewrite Hx in Hgp; discriminate Hgp|exact R3]].
+    + (* the stored PUBLISH is found *)
+      exists (aput t g m). split; [reflexivity|]. unfold ri_R, ri_exp; sf.
+      split; [intros Hx; exfalso; apply Hx; exact Hl|split; [intros Hx; rewrite Hx in Hgp; discriminate Hgp|]].
+      intros g'. rewrite aget_aput, Hgp. cbn [is_role]. destruct (g' =? g); [reflexivity|apply R3].
+    + (* the release: exactly the stored message is handed on *)
+      apply message_eqb_eq in Heqb. rewrite <- Heqb.
+      exists (adel t g). split; [cbn [ri_step]; rewrite R3, is_role_some, message_eqb_refl; reflexivity|].
+      unfold ri_R, ri_exp; sf.
+      split; [intros Hx; exfalso; apply Hx; exact Hl|split; [intros Hx; rewrite Hx in Hgp; discriminate Hgp|]].
+      intros g'. rewrite aget_adel. destruct (N.eqb_spec g' g) as [->|Hne]; [reflexivity|].
+      rewrite R3. cbn [is_role]. destruct (N.eqb_spec g' g); [contradiction|reflexivity].
+  - (* dequeuer *)
+    assert (HR1 : ri_R s1 t).
+    { destruct Hv as [[-> _]|(_ & _ & ->)]; [exact HR|]. apply ri_R_roles; exact HR. }
+    exists t. split; [apply ri_neutral_step, deq_event_ri; eapply step_deq_event; exact Hp|].
+    destruct (step_deq_shape _ _ _ Hp) as (se & d & dy & t1 & t2 & t3 & ->).
+    unfold ri_R, ri_exp in *; sf; exact HR1.
+  - (* acker *)
+    assert (HR1 : ri_R s1 t).
+    { destruct Hv as [[-> _]|(_ & _ & ->)]; [exact HR|]. apply ri_R_roles; exact HR. }
+    exists t. split; [apply ri_neutral_step, ack_event_ri; eapply step_ack_event; exact Hp|].
+    destruct (step_ack_shape _ _ _ Hp) as (a & dy & t1 & t2 & t3 & q & ->).
+    unfold ri_R, ri_exp in *; sf; exact HR1.
+  - (* cleanup *)
+    assert (HR1 : ri_R s1 t).
+    { destruct Hv as [[-> _]|(_ & _ & ->)]; [exact HR|]. apply ri_R_roles; exact HR. }
+    exists t. split; [apply ri_neutral_step, cleanup_event_ri; eapply step_cleanup_event; exact Hp|].
+    eapply ri_R_cleanup; eassumption.
+  - subst e s'. exists t. split; [reflexivity|]. unfold ri_R, ri_exp in *; sf; exact HR.
+Qed.
+
+Theorem c15_release_intact_holds : forall es s, bc_run es = Some s -> c15_release_intact es = true.
+Proof.
+  apply (scan_sound ri_step ri_R ri_step_ok).
+  unfold ri_R, ri_exp, bc_init. sf. split; [reflexivity|split; [right; reflexivity|reflexivity]].
+Qed.
